@@ -253,6 +253,8 @@ def unit_si_readout(fname, twin=False):
             v = U.local_of(info, s, "iap"); old = tm.sym("iter_iap", "R")
         U.discharge_eq_real(r, "iteration.iap+=coef*la", list(s.pc), v, old + (coef * la if not twin else coef + la))
     r.add("reach.iteration", DISCHARGED if n >= 1 else UNDECIDED, "symex", 0, "%d" % n, kind="vacuity")
+    from props import common as CM
+    CM.check_accumulator_init(r, fn0, BASICSUBS, CM.loop_node(fn0, 0), "*iap" if fname == "saturation_index" else "iap", "walk")
     # the statement that forms SI
     src = open(os.path.join(REPO, BASICSUBS), "rb").read()
     tgt = None
